@@ -188,8 +188,8 @@ def main(tier):
     jobs = []
     big = tier != 'quick'
     base = {'maxq': 3 if big else 2, 'maxr': 4 if big else 3, 'maxsel': 3 if big else 2}
-    for kind in range(3):
-        kn = ['SignatureArray', 'SignatureList', 'list'][kind]
+    for kind in range(4):
+        kn = ['SignatureArray', 'SignatureList', 'list', 'HDF5Signatures (signature file on disk)'][kind]
         jobs.append(dict(path=H, fname='_c05_matrix', params=dict(base, kind=kind), timeout=2400 if big else 400, self_reach=True, label=f'jaccarddist_matrix refs in {kn}',
                          bounds={'queries': f'1..{base["maxq"]}', 'references': f'1..{base["maxr"]}', 'chunksize': f'None, 1..{base["maxr"] + 1}', 'ref_indices': f'None, empty, up to {base["maxsel"]} indices with repeats',
                                  'out': 'supplied or not', 'queries container': 'SignatureArray or list'}))
@@ -210,7 +210,7 @@ def main(tier):
     run.bounds = {'K': 'prange over 1..3 references, query <= 2 elements, concatenated references <= 4 elements, symbolic bounds array, dtype pairs',
                   'X': 'see obligations'}
     run.stubs = ['X: gambit._cython.metric.jaccarddist / _jaccarddist_parallel -> tagged value identifying (query, reference)']
-    run.outside = ['the OpenMP runtime and the C compiler honouring Cython\'s private/shared classification', 'HDF5Signatures as container (h5py)', 'threads.pyx (omp_set_num_threads)',
+    run.outside = ['the OpenMP runtime and the C compiler honouring Cython\'s private/shared classification', 'threads.pyx (omp_set_num_threads)',
                    'thread counts: schedule independence is shown by disjointness of the iterations\' read/write sets, not by running threads']
     run.assumptions = ['Bernstein conditions: iterations whose write sets are disjoint from each other\'s read and write sets give the sequential result under every schedule',
                        'cell identity is decided with FP operators as uninterpreted functions first (congruence), then precisely',
